@@ -1,0 +1,6 @@
+//go:build !verif
+
+package linter
+
+// verifWrapWalker is a verification hook; without the verif build tag it is the identity.
+func verifWrapWalker(_ *Checker, w FileWalker) FileWalker { return w }
